@@ -391,6 +391,10 @@ fn merge_ok(m: &mut Merged, space: usize, v: &Value, dig: Vec<u64>) {
             if k.ends_with("_what") {
                 continue;
             }
+            if k.starts_with("secs_") || k.starts_with("states_") {
+                m.extra.insert(k.clone(), val.clone());
+                continue;
+            }
             match (m.extra.get(k).and_then(|x| x.as_u64()), val.as_u64()) {
                 (Some(a), Some(b)) => {
                     m.extra.insert(k.clone(), json!(a + b));
@@ -404,6 +408,10 @@ fn merge_ok(m: &mut Merged, space: usize, v: &Value, dig: Vec<u64>) {
     }
 }
 
+/// hangs / aborts found so far in this run (each costs a watchdog period or a bisection)
+static COSTLY_FINDINGS: std::sync::atomic::AtomicU64 = std::sync::atomic::AtomicU64::new(0);
+const COSTLY_LIMIT: u64 = 3;
+
 fn process_job(
     def: &CheckDef,
     tier: Tier,
@@ -414,12 +422,22 @@ fn process_job(
     wall_cap: Duration,
 ) {
     let tag = format!("d{depth}");
+    if COSTLY_FINDINGS.load(Ordering::Relaxed) >= COSTLY_LIMIT {
+        let mut m = merged.lock().unwrap();
+        if m.capped.is_empty() {
+            m.capped.push(format!(
+                "exploration stopped early after {COSTLY_LIMIT} hang/abort findings (each costs a watchdog period); remaining chunks not explored"
+            ));
+        }
+        return;
+    }
     match run_worker(def.prop, tier, &job, scratch, &tag, wall_cap) {
         RunRes::Ok(v, dig) => {
             let mut m = merged.lock().unwrap();
             merge_ok(&mut m, job.space, &v, dig);
         }
         RunRes::Hang(idx) => {
+            COSTLY_FINDINGS.fetch_add(1, Ordering::Relaxed);
             // the cases before and after the hanging one still have to be explored
             {
                 let mut m = merged.lock().unwrap();
@@ -471,6 +489,7 @@ fn process_job(
         }
         RunRes::Crash(msg) => {
             if job.b - job.a <= 1 {
+                COSTLY_FINDINGS.fetch_add(1, Ordering::Relaxed);
                 let mut m = merged.lock().unwrap();
                 m.evals += 1;
                 if def.abort_is_violation {
@@ -711,7 +730,7 @@ pub fn controller_main(def: &CheckDef, tier: Tier) -> i32 {
         wall,
         exit
     );
-    if m.evals < total && exit == 0 {
+    if m.evals < total && exit == 0 && m.capped.is_empty() {
         eprintln!("MACHINERY: explored {} of {} declared cases", m.evals, total);
         return 2;
     }
